@@ -31,6 +31,7 @@ class CancelCtx:
         return RuntimeError("aborted")
 
     async def cancel_incremental_work(self, reason=None):
+        self.world.closed = True
         aw = []
         for c in self.initial_computations:
             r = c.abort(reason)
